@@ -122,7 +122,7 @@ func tokenStyles(full bool, emit func(Style)) {
 	for dc := 0; dc < 3; dc++ {
 		for ac := 0; ac < 3; ac++ {
 			for q := 0; q < 2; q++ {
-				for cs := 0; cs < 2; cs++ {
+				for cs := 0; cs < 3; cs++ {
 					if !full && (dc != 0 || ac != 0) && (q != 0 || cs != 0) {
 						continue
 					}
